@@ -9,7 +9,7 @@
 #include <stdint.h>
 #include "libwifi.h"
 
-#define ITER 1500
+static int ITER = 1500;
 static uint64_t fnv(uint64_t h, const void *p, size_t n) { const unsigned char *b = p; for (size_t i = 0; i < n; i++) { h ^= b[i]; h *= 1099511628211ULL; } return h; }
 
 static uint64_t work(int id) {
@@ -103,6 +103,7 @@ static void *thr(void *arg) { int id = (int) (intptr_t) arg; results[id] = work(
 int main(int argc, char **argv) {
     int n = argc > 1 ? atoi(argv[1]) : 8;
     if (n > 64) n = 64;
+    if (argc > 2 && atoi(argv[2]) > 0) ITER = atoi(argv[2]);
     uint64_t seq[64];
     for (int i = 0; i < n; i++) seq[i] = work(i);
     pthread_t th[64];
